@@ -43,6 +43,11 @@ def run(ctx):
                  "V2": "filter_worst_knees keeps sign(h - h_min) in {-,0} or {-}: kept heights are non-increasing",
                  "V3": "hull-mode cluster filtering links", "V4": "demos: F/R index-space typing of simplify -> detect -> filter -> map -> evaluate"}.items():
         res.rule(k, v)
+    # ---- V5: what the pipeline's last stage (rdp.mapping) is handed by its first (the simplifier) ----------------
+    res.rule("V5", "each simplifier returns (reduced, removed) pairs that belong together, and mapping / compute_removed_points do not write their arguments: "
+                   "reduced-space knees map to retained points of the original curve")
+    from . import rdp_model as _rm
+    _rm.check_result_pairing(rc, "V5")
     # ---- V1 / V2: worst-knee and corner filters (shared machinery of C13) ---------------------
     sf, so = len(res.findings), len(res.obligations)
     c13._worst(rc)
